@@ -31,6 +31,7 @@ def run(rep, tier):
     dense.r_sol_errmap(rep, f)
     dense.r_cont_layout(rep, f)
     dense.r_seg_keep(rep, f)
+    dense.r_seg_filter(rep, f)
     dense.r_seg_lookup(rep, f)
     rep.explanation = "End-point identities of every step interpolant (explicit methods) at proof level; segment = step taken."
     rep.trusted_base = ["rustc nightly HIR/typeck", "driver/ivp-facts", "engine/symx.py"]
